@@ -170,7 +170,7 @@ class Triaxys(object):
     def construct_dataset(self):
         self.dset = xr.DataArray(
             data=self.spec_list, coords=self.coords, dims=self.dims, name=attrs.SPECNAME
-        ).to_dataset()
+        ).to_dataset().sortby(attrs.TIMENAME)
         set_spec_attributes(self.dset)
         if not self.is_dir:
             self.dset = self.dset.isel(drop=True, **{attrs.DIRNAME: 0})
